@@ -532,6 +532,16 @@ func TestRun(t *testing.T) {
 			}
 			tail := ref.EncodeTCP(ref.Msg{Code: 0x45, Token: []byte{0xaa}, Payload: []byte("after")})
 			tail = append(tail, tail...)
+			whole := i%8 == 5 && maxSize <= 1152
+			if whole {
+				// the oversized frame is COMPLETE and small enough to arrive with one read (64 < frame <= 2048): whether a
+				// frame is too large does not depend on how much of it is already there when its header is looked at
+				body := int(maxSize) + 1 + r.Intn(200)
+				whdr := frameHeader(body, 0x02, tok)
+				hdr = append(append([]byte(nil), whdr...), bytes.Repeat([]byte{0xff}, 1)...)
+				hdr = append(hdr, bytes.Repeat([]byte{'x'}, body-1)...)
+				desc = fmt.Sprintf("complete frame with a body of %d bytes, maximum message size %d", body, maxSize)
+			}
 			for _, headerOnly := range []bool{true, false} {
 				var cuts []int
 				total := 0
@@ -547,6 +557,15 @@ func TestRun(t *testing.T) {
 					cuts = []int{total, total + len(hdr)}
 				}
 				fc := fcase{Msgs: len(prefix), CutMode: fmt.Sprintf("oversize headerOnly=%v", headerOnly), Cache: caches[r.Intn(len(caches))], MaxSize: maxSize, Oversize: desc, Seed: gs}
+				if whole {
+					// one read for everything, or the first header byte alone and the rest together
+					fc.Cache = 2048
+					cuts = nil
+					if headerOnly {
+						cuts = []int{total + 1}
+					}
+					fc.CutMode = fmt.Sprintf("complete oversize frame, cuts %v", cuts)
+				}
 				runOversize(rec, fc, prefix, hdr, tail, cuts, headerOnly)
 				rec.Eval(fmt.Sprintf("over|%d|%v", gs, headerOnly))
 				if i < 2 {
